@@ -3,7 +3,7 @@ import argparse, importlib, os, sys, json, traceback
 from .common import Inconclusive, log
 
 CHECKS = {
-    'C01': 'relsmt.c01', 'C02': 'checks.c02', 'C06': 'kani.c06', 'C11': 'mirsmt.c11', 'C12': 'relsmt.c12',
+    'C01': 'relsmt.c01', 'C02': 'checks.c02', 'C06': 'kani.c06', 'C07': 'mirsmt.c07', 'C11': 'mirsmt.c11', 'C12': 'relsmt.c12',
     'C13': 'relsmt.c13', 'C14': 'mirsmt.c14', 'C16': 'mirsmt.c16', 'C19': 'kani.c19', 'C20': 'mirsmt.c20',
 }
 
